@@ -811,6 +811,10 @@ pub fn run(prop: Prop, tier: Tier) -> i32 {
         let c3 = frag_check::<Tap>(&rep, prop, "tap", &lim_tap, SigVer::Tapscript, KeyForm::XOnly, thorough);
         rep.merge_counts(&c3);
     }
+    if prop == Prop::C02 {
+        // the PSBT finalizer is a satisfier over the PSBT's own data: same completeness claim
+        rep.merge_counts(&crate::c14::completeness_for_c02(&rep, tier));
+    }
     // samples
     if let Some(d) = models.iter().rev().find(|d| matches!(d, D::Wsh(_))) {
         rep.sample(json!({"descriptor_model": d.sexpr(), "printed": d.print()}));
